@@ -19,6 +19,8 @@
 // Type words (prefix notation, '.'-separated):  p1 p2 p4 p8 (unsigned), i4 (int), d8 (double), s (std::string),
 // v1 v2 v4 v8 (std::vector<POD>), L.T (std::vector<T>, T not POD), Q.T (std::list<T>), S.T (std::set<T>),
 // M.K.V (std::map), P.A.B (std::pair), R.T (booster::shared_ptr), U.T (std::unique_ptr), C.T (booster::copy_ptr),
+// j (cppcms::json::value, value token j<hex of compact text> or ju = undefined), H.T (booster::hold_ptr), K.T (booster::clone_ptr of a
+// clonable serializable class holding T), I.T (booster::intrusive_ptr of a reference counted serializable class holding T),
 // B.T (serializable class with one member), X.A.B (serializable class with two members),
 // W.T (std::multiset), N.K.V (std::multimap), A<n>.T (T[n], T not arithmetic), p<bytes> also names arithmetic arrays.
 // Value tokens: x<hex> (POD / POD vector bytes), s<hex>, n<count> then the elements, 0 | 1 <value> for pointers.
@@ -29,6 +31,7 @@
 #include <cppcms/session_pool.h>
 #include <cppcms/http_cookie.h>
 #include <cppcms/json.h>
+#include <booster/refcounted.h>
 #include <sanitizer/asan_interface.h>
 #include <map>
 #include <set>
@@ -83,6 +86,21 @@ struct rec2 : public cppcms::serializable {
 	void serialize(archive &ar) { ar & a & b; }
 };
 
+// serializable class with clone() (for booster::clone_ptr) and a reference counted one (booster::intrusive_ptr)
+template<typename T>
+struct cbox : public cppcms::serializable {
+	T v;
+	cbox() : v() {}
+	cbox *clone() const { return new cbox(*this); }
+	void serialize(archive &a) { a & v; }
+};
+template<typename T>
+struct ibox : public cppcms::serializable, public booster::refcounted {
+	T v;
+	ibox() : v() {}
+	void serialize(archive &a) { a & v; }
+};
+
 // ---- type names
 template<typename T,typename E=void> struct TN;
 template<> struct TN<unsigned char> { static std::string name() { return "p1"; } };
@@ -109,6 +127,10 @@ template<typename T,size_t N> struct TN<T[N],typename std::enable_if<std::is_ari
 	static std::string name() { return "p" + std::to_string(sizeof(T)*N); } };
 template<typename T,size_t N> struct TN<T[N],typename std::enable_if<!std::is_arithmetic<T>::value>::type> {
 	static std::string name() { return "A" + std::to_string(N) + "." + TN<T>::name(); } };
+template<> struct TN<cppcms::json::value> { static std::string name() { return "j"; } };
+template<typename T> struct TN<booster::hold_ptr<T> > { static std::string name() { return "H." + TN<T>::name(); } };
+template<typename T> struct TN<booster::clone_ptr<cbox<T> > > { static std::string name() { return "K." + TN<T>::name(); } };
+template<typename T> struct TN<booster::intrusive_ptr<ibox<T> > > { static std::string name() { return "I." + TN<T>::name(); } };
 template<typename T> struct TN<box<T> > { static std::string name() { return "B." + TN<T>::name(); } };
 template<typename A,typename B> struct TN<rec2<A,B> > { static std::string name() { return "X." + TN<A>::name() + "." + TN<B>::name(); } };
 
@@ -159,6 +181,18 @@ template<typename T,size_t N> typename std::enable_if<std::is_arithmetic<T>::val
 template<typename T,size_t N> typename std::enable_if<std::is_arithmetic<T>::value>::type parse(Tok &t,T (&v)[N]);
 template<typename T,size_t N> typename std::enable_if<!std::is_arithmetic<T>::value>::type dump(T const (&v)[N],std::string &o);
 template<typename T,size_t N> typename std::enable_if<!std::is_arithmetic<T>::value>::type parse(Tok &t,T (&v)[N]);
+void dump(cppcms::json::value const &v,std::string &o);
+void parse(Tok &t,cppcms::json::value &v);
+template<typename T> void dump(booster::hold_ptr<T> const &v,std::string &o);
+template<typename T> void parse(Tok &t,booster::hold_ptr<T> &v);
+template<typename T> void dump(booster::clone_ptr<cbox<T> > const &v,std::string &o);
+template<typename T> void parse(Tok &t,booster::clone_ptr<cbox<T> > &v);
+template<typename T> void dump(booster::intrusive_ptr<ibox<T> > const &v,std::string &o);
+template<typename T> void parse(Tok &t,booster::intrusive_ptr<ibox<T> > &v);
+template<typename T> void dump(cbox<T> const &v,std::string &o);
+template<typename T> void parse(Tok &t,cbox<T> &v);
+template<typename T> void dump(ibox<T> const &v,std::string &o);
+template<typename T> void parse(Tok &t,ibox<T> &v);
 template<typename T> void dump(box<T> const &v,std::string &o);
 template<typename T> void parse(Tok &t,box<T> &v);
 template<typename A,typename B> void dump(rec2<A,B> const &v,std::string &o);
@@ -234,6 +268,40 @@ template<typename T> void dump(std::unique_ptr<T> const &v,std::string &o) { dum
 template<typename T> void parse(Tok &t,std::unique_ptr<T> &v) { parse_ptr<std::unique_ptr<T>,T>(t,v); }
 template<typename T> void dump(booster::copy_ptr<T> const &v,std::string &o) { dump_ptr(v,o); }
 template<typename T> void parse(Tok &t,booster::copy_ptr<T> &v) { parse_ptr<booster::copy_ptr<T>,T>(t,v); }
+// json::value travels as its compact text; "ju" is the undefined value (it has no text: save throws)
+void dump(cppcms::json::value const &v,std::string &o)
+{
+	if(v.is_undefined()) { o+=" ju"; return; }
+	std::string s=v.save(cppcms::json::compact);
+	o+=" j"; o+=hx(s.data(),s.size());
+}
+void parse(Tok &t,cppcms::json::value &v)
+{
+	std::string w=t.next();
+	if(w=="ju") { v=cppcms::json::value(); return; }
+	Tok t2={t.w,t.i-1};
+	std::string text=t2.bytes('j');
+	std::istringstream ss(text);
+	cppcms::json::value r;
+	if(!r.load(ss,true)) throw std::runtime_error("bad-op");
+	v=r;
+}
+template<typename T> void dump(booster::hold_ptr<T> const &v,std::string &o) { dump_ptr(v,o); }
+template<typename T> void parse(Tok &t,booster::hold_ptr<T> &v) { parse_ptr<booster::hold_ptr<T>,T>(t,v); }
+template<typename T> void dump(booster::clone_ptr<cbox<T> > const &v,std::string &o) { dump_ptr(v,o); }
+template<typename T> void parse(Tok &t,booster::clone_ptr<cbox<T> > &v) { parse_ptr<booster::clone_ptr<cbox<T> >,cbox<T> >(t,v); }
+template<typename T> void dump(booster::intrusive_ptr<ibox<T> > const &v,std::string &o) { dump_ptr(v,o); }
+template<typename T> void parse(Tok &t,booster::intrusive_ptr<ibox<T> > &v)
+{
+	std::string w=t.next();
+	if(w=="0") v=0;
+	else if(w=="1") { v=new ibox<T>(); parse(t,*v); }
+	else throw std::runtime_error("bad-op");
+}
+template<typename T> void dump(cbox<T> const &v,std::string &o) { dump(v.v,o); }
+template<typename T> void parse(Tok &t,cbox<T> &v) { parse(t,v.v); }
+template<typename T> void dump(ibox<T> const &v,std::string &o) { dump(v.v,o); }
+template<typename T> void parse(Tok &t,ibox<T> &v) { parse(t,v.v); }
 template<typename T> void dump(box<T> const &v,std::string &o) { dump(v.v,o); }
 template<typename T> void parse(Tok &t,box<T> &v) { parse(t,v.v); }
 template<typename A,typename B> void dump(rec2<A,B> const &v,std::string &o) { dump(v.a,o); dump(v.b,o); }
@@ -256,6 +324,12 @@ struct Junk {
 	template<typename T> static void j(std::unique_ptr<T> &v) { v.reset(new T()); j(*v); }
 	template<typename T> static void j(booster::copy_ptr<T> &v) { v.reset(new T()); j(*v); }
 	template<typename T,size_t N> static void j(T (&v)[N]) { for(size_t i=0;i<N;i++) j(v[i]); }
+	static void j(cppcms::json::value &v) { v=cppcms::json::value(); v["junk"][1]=true; }
+	template<typename T> static void j(booster::hold_ptr<T> &v) { v.reset(new T()); j(*v); }
+	template<typename T> static void j(booster::clone_ptr<cbox<T> > &v) { v.reset(new cbox<T>()); j(*v); }
+	template<typename T> static void j(booster::intrusive_ptr<ibox<T> > &v) { v=new ibox<T>(); j(*v); }
+	template<typename T> static void j(cbox<T> &v) { j(v.v); }
+	template<typename T> static void j(ibox<T> &v) { j(v.v); }
 	template<typename T> static void j(box<T> &v) { j(v.v); }
 	template<typename A,typename B> static void j(rec2<A,B> &v) { j(v.a); j(v.b); }
 };
@@ -274,6 +348,7 @@ static std::string err_kind(char const *what)
 	if(w.find("Invalid archive format")!=std::string::npos) return "err hdr";
 	if(w.find("Invalid archive_format")!=std::string::npos) return "err size";
 	if(w.find("Invalid block length")!=std::string::npos) return "err len";
+	if(w.find("Invalid json")!=std::string::npos) return "err json";
 	return "err other:" + w;
 }
 
@@ -295,7 +370,8 @@ template<typename T> std::string do_save(Tok &t)
 {
 	T v=T(); parse(t,v);
 	archive a;
-	cppcms::archive_traits<T>::save(v,a);
+	try { cppcms::archive_traits<T>::save(v,a); }
+	catch(cppcms::json::bad_value_cast const &) { return "throw"; }
 	return vh::hex(a.str());
 }
 template<typename T> std::string do_load(std::string const &bytes)
@@ -340,7 +416,8 @@ template<typename T> std::string do_rt(Tok &t)
 {
 	T v=T(); parse(t,v);
 	archive a;
-	a & v;                                  // operator& in save mode
+	try { a & v; }                          // operator& in save mode
+	catch(cppcms::json::bad_value_cast const &) { return "throw"; }
 	a.mode(archive::load_from_archive);
 	Poison guard(a.buffer_);
 	std::string out;
@@ -358,7 +435,8 @@ template<typename T> std::string do_ssave(Tok &t)
 {
 	T v=T(); parse(t,v);
 	std::string s;
-	cppcms::serialization_traits<T>::save(v,s);
+	try { cppcms::serialization_traits<T>::save(v,s); }
+	catch(cppcms::json::bad_value_cast const &) { return "throw"; }
 	return vh::hex(s);
 }
 template<typename T> std::string do_sload(std::string const &bytes)
@@ -378,7 +456,8 @@ template<typename T> std::string do_srt(Tok &t)
 {
 	T v=T(); parse(t,v);
 	std::string s,out;
-	cppcms::serialization_traits<T>::save(v,s);
+	try { cppcms::serialization_traits<T>::save(v,s); }
+	catch(cppcms::json::bad_value_cast const &) { return "throw"; }
 	try {
 		T w=T();
 		if(prefill) Junk::j(w);
@@ -413,7 +492,8 @@ template<typename T> std::string do_cache(Tok &t)
 {
 	T v=T(); parse(t,v);
 	cppcms::cache_interface cache(the_service());
-	cache.store_data("k",v);
+	try { cache.store_data("k",v); }
+	catch(cppcms::json::bad_value_cast const &) { return "throw"; }
 	std::string out;
 	try {
 		T w=T();
@@ -432,7 +512,8 @@ template<typename T> std::string do_session(Tok &t)
 	no_cookies ad;
 	cppcms::session_interface s(*pool,ad);
 	s.load();
-	s.store_data("k",v);
+	try { s.store_data("k",v); }
+	catch(cppcms::json::bad_value_cast const &) { return "throw"; }
 	std::string out;
 	try {
 		T w=T();
@@ -482,6 +563,11 @@ static void init()
 	reg<map<std::multiset<u1>,string> >();
 	regs<box<string[3]> >(); regs<box<u4[3]> >(); regs<box<vector<string>[2]> >(); regs<rec2<u2[4],set<string>[2]> >();
 	regs<box<map<string,u4>[1]> >();
+	typedef cppcms::json::value jv;
+	reg<jv>(); reg<vector<jv> >(); reg<map<string,jv> >(); reg<shared_ptr<jv> >(); reg<pair<u4,jv> >(); regs<box<jv> >(); regs<rec2<jv,string> >();
+	reg<booster::hold_ptr<string> >(); reg<booster::hold_ptr<vector<u4> > >(); regs<box<booster::hold_ptr<map<string,u2> > > >();
+	reg<booster::clone_ptr<cbox<string> > >(); reg<vector<booster::clone_ptr<cbox<u4> > > >(); reg<booster::clone_ptr<cbox<set<string> > > >();
+	reg<booster::intrusive_ptr<ibox<string> > >(); reg<list<booster::intrusive_ptr<ibox<vector<u2> > > > >(); regs<rec2<booster::intrusive_ptr<ibox<u4> >,booster::hold_ptr<string> > >();
 }
 
 static std::string run(std::vector<std::string> const &w)
@@ -566,8 +652,14 @@ static std::string run(std::vector<std::string> const &w)
 	return "bad-op";
 }
 
+static std::string run_checked(std::vector<std::string> const &w)
+{
+	try { return run(w); }
+	catch(std::runtime_error const &e) { if(std::string(e.what())=="bad-op") return "bad-op"; throw; }
+}
+
 int main()
 {
 	init();
-	return vh::drive(run);
+	return vh::drive(run_checked);
 }
